@@ -38,8 +38,21 @@ pub(crate) fn synthesize_expr(
     Ok(resize(raw, target_width, expr_signed(expr)))
 }
 
+/// Whether widening this operand sign-extends.  A signed operand inside an
+/// unsigned expression zero-extends (IEEE 1800-2017 11.8.1: one unsigned
+/// operand makes the whole expression unsigned), and so does a bit- or
+/// part-select of a signed variable.
 fn expr_signed(expr: &Expression) -> bool {
-    expr.comptime().r#type.signed
+    let comptime = expr.comptime();
+    if !comptime.r#type.signed || !comptime.expr_context.signed {
+        return false;
+    }
+    if let Expression::Term(factor) = expr
+        && let Factor::Variable(_, _, select, _) = factor.as_ref()
+    {
+        return select.is_empty();
+    }
+    true
 }
 
 pub(crate) fn try_constant(expr: &Expression) -> Option<u64> {
@@ -1253,6 +1266,12 @@ pub(super) fn try_fold_case_ternary(
     };
     if arm_exprs.len() < MIN_ARMS {
         return Ok(None);
+    }
+    // ORing the arms is first-match-wins only for pairwise distinct constants.
+    for (i, (c, _)) in arm_exprs.iter().enumerate() {
+        if arm_exprs[..i].iter().any(|(p, _)| p == c) {
+            return Ok(None);
+        }
     }
     let sel_width = sel_expr.comptime().r#type.total_width().unwrap_or(0);
     if sel_width == 0 || sel_width > 32 {
